@@ -69,7 +69,15 @@ func (s *StoreSession) records(seq int) (exists bool, recs []fileRecord) {
 	return
 }
 
-func tearPoints(kind string, total int) []int {
+// tearPoint: how a torn record lies on the disk -- its first n bytes, and then either the end
+// of the file or zeroes up to the record's full length (the file length was extended before
+// the data pages reached the disk).
+type tearPoint struct {
+	n    int
+	zero bool
+}
+
+func tearPoints(kind string, total int) []tearPoint {
 	var c []int
 	switch kind {
 	case "hdr":
@@ -79,12 +87,28 @@ func tearPoints(kind string, total int) []int {
 	default:
 		c = []int{1, 4095, 4096, 4097, total / 2, total - 1}
 	}
-	var out []int
+	var out []tearPoint
 	seen := map[int]bool{}
 	for _, x := range c {
 		if x > 0 && x < total && !seen[x] {
 			seen[x] = true
-			out = append(out, x)
+			out = append(out, tearPoint{x, false})
+		}
+	}
+	// zero-filled tails: the begin marker, version and length of a footer (24 bytes) are on the
+	// disk, its JSON partly, its end markers not; a segment with its first page only
+	switch kind {
+	case "ftr":
+		for _, x := range []int{24, 32, total / 2, total - 4} {
+			if x > 0 && x < total {
+				out = append(out, tearPoint{x, true})
+			}
+		}
+	case "seg":
+		for _, x := range []int{1, 4096} {
+			if x < total {
+				out = append(out, tearPoint{x, true})
+			}
 		}
 	}
 	return out
@@ -181,8 +205,16 @@ func (s *StoreSession) materialise(a crashArg) (string, error) {
 					f.Close()
 					return fail(errEnd)
 				}
-				limit = pts[s.D.Variant]
+				limit = pts[s.D.Variant].n
 				tornSeen = true
+				if pts[s.D.Variant].zero && len(rec.ops) > 0 {
+					// the file already has its full length; what was not written reads as zeroes
+					last := rec.ops[len(rec.ops)-1]
+					if err := f.Truncate(last.Off + int64(len(last.Data))); err != nil {
+						f.Close()
+						return fail(err)
+					}
+				}
 			}
 			for _, op := range rec.ops {
 				data := op.Data
